@@ -220,6 +220,69 @@ def misc(ck, agg):
     return n
 
 
+def request_frames(ck, agg):
+    """R17.6: every address request a joining node sends - to the first contact and to every later one - is a complete request frame:
+    type MESH_ADDR_REQUEST, from the unassigned address, carrying the node's ID in `reserved`, empty payload, addressed to the contact.
+    frame_buf is the shared RX/TX buffer: whatever _net_update() received while waiting for the previous contact's answer has overwritten
+    it (modelled by a summary that replaces every header field and the message by fresh unknowns), so the fields must be set per contact."""
+    P = ck.prog
+    nn = node_of(ck, "RF24MeshNoMaster")
+    cls = nn.cls
+    mix = P.cls("network.mixins", "NetworkMixin")
+    f = P.method(cls, "_request_address")
+    REQ = T.CONSTANTS["MESH_ADDR_REQUEST"]
+
+    def upd(model, it, st, fr, node, target, args, kwargs):
+        selfv = args[0]
+        k = st.extra.get("nsum", 0) + 1
+        st.extra["nsum"] = k
+        fb = st.heap[selfv.ident].fields.get("frame_buf")
+        if isinstance(fb, Ref):
+            st.heap[fb.ident].fields["message"] = Bytes([(("sym", ("rxmsg", k)), Sym(("len", ("rxmsg", k)), "int", rng=(0, 144)))], "bytes")
+            h = st.heap[fb.ident].fields.get("header")
+            if isinstance(h, Ref):
+                for fld in list(st.heap[h.ident].fields):
+                    st.heap[h.ident].fields[fld] = Sym(("rx", k, fld), "int", rng=(0, 0xFFFF))
+        it.event(st, fr, "rx-havoc", node, k)
+        return [(st, Sym(("updret", k), "int", rng=(0, 255)))]
+    nn.model.opaque[P.method(mix, "_net_update").qualname] = upd
+    c0, c1 = Sym("contact0", "int", rng=(0, 0o7777)), Sym("contact1", "int", rng=(0, 0o7777))
+
+    def contacts(model, it, st, fr, node, target, args, kwargs):
+        return [(st, Seq([c0, c1], "tuple"))]
+    nn.model.opaque[P.method(cls, "_make_contact").qualname] = contacts
+    for nm in ("lookup_node_id",):
+        nn.model.opaque[P.method(cls, nm).qualname] = lambda model, it, st, fr, node, target, args, kwargs: [(st, Sym(st.fresh_name("lookup"), "int"))]
+    def begin(model, it, st, fr, node, target, args, kwargs):
+        # _begin(addr) re-addresses the node (R04.1); it never touches the node ID or the frame buffer
+        st.heap[args[0].ident].fields["_addr"] = args[1]
+        it.event(st, fr, "begin-call", node, tuple(args[1:]))
+        return [(st, Const(None))]
+    nn.model.opaque[P.method(mix, "_begin").qualname] = begin
+    nn.model.loop_key = net.radio_loop_key(nn, trace_kinds=("summary", "rx-havoc"))
+    st, node = nn.fresh(fields={"_id": 77, "_addr": DEFAULT})
+    outs = nn.run(f, node, [Const(1)], st, limits=Limits(max_paths=40000, loop_unroll=2, depth=14, concrete_loop=10))
+    n = 0
+    seen_second = False
+    for out in outs:
+        wr = [e for e in out.trace if e.kind == "summary" and e.data[0] == "_write" and e.func is not None and const_of(norm(e.data[3]["args"][1])) == T.CONSTANTS["TX_PHYSICAL"]]
+        for k, e in enumerate(wr):
+            n += 1
+            h, m, a = e.data[3].get("header", {}), e.data[3].get("message"), e.data[3]["args"]
+            after_rx = any(x.kind == "rx-havoc" and x.seq < e.seq for x in out.trace)
+            seen_second = seen_second or after_rx
+            who = "request to contact #%d%s" % (k, " (after frames were received while waiting for the previous contact)" if after_rx else "")
+            ok = const_of(norm(h.get("message_type"))) == REQ and const_of(norm(h.get("from_node"))) == DEFAULT and const_of(norm(h.get("reserved"))) == 77
+            agg.add("R17.6", f, "every address request is a MESH_ADDR_REQUEST from the unassigned address carrying the node's ID", ok,
+                    "%s: type %r, from %r, reserved %r" % (who, h.get("message_type"), h.get("from_node"), h.get("reserved")), e.node)
+            okm = isinstance(m, Bytes) and const_of(norm(m.length())) == 0
+            agg.add("R17.6", f, "an address request has an empty payload", okm, "%s: message %r" % (who, m), e.node)
+            okt = hasattr(h.get("to_node"), "key") and norm(h.get("to_node")).key() == norm(a[0]).key()
+            agg.add("R17.6", f, "an address request is addressed to the contact it is sent to", okt, "%s: header.to_node %r, sent to %r" % (who, h.get("to_node"), a[0]), e.node)
+    agg.add("R17.6", f, "the analysis reaches a second contact after received traffic", seen_second, "no path sends a request after _net_update() ran")
+    return n
+
+
 def run(ck):
     ck.explanation = (
         "Static analysis of the mesh lookup/join API by abstract interpretation with _net_update() replaced by scripted summaries (no reply / a "
@@ -240,8 +303,10 @@ def run(ck):
     # a join yields an address no other connected node holds only if the master's allocator scans its whole table for every candidate:
     # the allocator rules of C16 (R16.1 candidates, R16.2 exhaustive scan, R16.3 lease under the requester's ID) are a necessary part of C17
     n4 = c16.dhcp_rules(ck, agg, c16.master(ck))
+    n5 = request_frames(ck, agg)
     agg.flush()
     ck.floor("R16.1", "allocator relay scenarios", n4, 7)
+    ck.floor("R17.6", "address requests examined", n5, 2)
     ck.floor("R17.1", "lookup scenarios", n1, 16)
     ck.floor("R17.1", "master scenarios", n2, 2)
     ck.floor("R17.3", "blocking / release scenarios", n3, 10)
